@@ -62,6 +62,9 @@ func loadProgram(overlayDirs map[string]string, patterns []string, tags string) 
 				return nil, nil, nil, err
 			}
 			target := filepath.Join(repoDir, dst, e.Name())
+			if excludedOverlay[target] {
+				continue // dropped after a load error: see loadWithFallback
+			}
 			overlay[target] = b
 			files[target] = filepath.Join(src, e.Name())
 		}
@@ -99,6 +102,48 @@ func loadProgram(overlayDirs map[string]string, patterns []string, tags string) 
 	prog, _ := ssautil.AllPackages(pkgs, ssa.InstantiateGenerics|ssa.SanityCheckFunctions*0)
 	prog.Build()
 	return prog, pkgs, files, nil
+}
+
+var excludedOverlay = map[string]bool{}
+
+// loadWithFallback loads the program; when a harness file (an overlay file named
+// zz_verif_*.go or living under zzverif/) no longer type-checks against the
+// current tree — e.g. an unexported function it calls changed its signature —
+// that file alone is dropped and the load is retried, so that the other
+// harnesses of the property still run. Dropped files are returned.
+func loadWithFallback(overlayDirs map[string]string, patterns []string, tags string) (*ssa.Program, map[string]string, []string, error) {
+	var dropped []string
+	for attempt := 0; attempt < 6; attempt++ {
+		prog, _, files, err := loadProgram(overlayDirs, patterns, tags)
+		if err == nil {
+			return prog, files, dropped, nil
+		}
+		// find harness files mentioned in the error text
+		culprit := ""
+		for _, line := range strings.Split(err.Error(), "\n") {
+			for _, field := range strings.Fields(line) {
+				if i := strings.Index(field, ".go:"); i > 0 {
+					path := field[:i+3]
+					if j := strings.Index(path, "/repo/"); j >= 0 {
+						path = path[j:]
+					}
+					base := filepath.Base(path)
+					if (strings.HasPrefix(base, "zz_verif_") || strings.Contains(path, "/zzverif/")) && !strings.Contains(path, "/zzverif/rt/") && !strings.Contains(path, "/zzverif/models/") && !excludedOverlay[path] {
+						culprit = path
+					}
+				}
+			}
+			if culprit != "" {
+				break
+			}
+		}
+		if culprit == "" {
+			return nil, nil, dropped, err
+		}
+		excludedOverlay[culprit] = true
+		dropped = append(dropped, culprit+": "+firstLine(err.Error()))
+	}
+	return nil, nil, dropped, fmt.Errorf("harness does not load even after dropping %d files", len(dropped))
 }
 
 func shimEnv() []string {
